@@ -546,6 +546,11 @@ func TestCheck(t *testing.T) {
 	ctx := context.Background()
 	n := int64(cfg.Pick(600, 1200))
 	rep.Cases(n, func(idx int64, rng *mon.Rand) {
+		if idx%8 == 7 {
+			// edge_branch_test.go: a plain edge and a branch between the same pair of nodes
+			edgeBranchCase(ctx, rep, rng, cfg, idx == 7)
+			return
+		}
 		mode := gspec.Mode(idx % 3)
 		spec := gspec.Gen(rng, genOpts(rng, cfg, mode))
 		specCase(ctx, rep, rng, cfg, spec, idx < 3)
